@@ -60,6 +60,8 @@ pub fn specs() -> Vec<PropertySpec> {
                 Plan { engine: "e1", variant: "c08", quick: 3_000, thorough: 100_000, asan: true },
                 // "in every other simulated run no trap": the fault-free generate class on rich projects
                 Plan { engine: "e2", variant: "arte", quick: 1_200, thorough: 30_000, asan: false },
+                // ... and the class with injected rule violations (check must reject them, generate must not trap)
+                Plan { engine: "e2", variant: "c18", quick: 700, thorough: 15_000, asan: false },
             ],
             rule: "at-rest corruption of one input (config, schema or operation file): truncate at a byte offset, flip one bit, splice with another file, empty, invalid UTF-8 tail, indentation replaced by Unicode spaces (IME / copy-paste), file vanished, unreadable; then check / generate / check+generate; plus the fault-free generate class (no trap in any simulated run)",
             assumptions: vec!["storage-fault slice only: grammar-directed fuzzing of the parser is a different technique"],
@@ -72,6 +74,8 @@ pub fn specs() -> Vec<PropertySpec> {
             plans: vec![
                 Plan { engine: "e2", variant: "arte", quick: 3_000, thorough: 80_000, asan: false },
                 Plan { engine: "e2", variant: "c17", quick: 300, thorough: 5_000, asan: false },
+                // maps announced by a run that met an I/O fault and still reported success
+                Plan { engine: "e2", variant: "c18f", quick: 300, thorough: 5_000, asan: false },
             ],
             rule: "every .map listed by a successful simulated generate (all three modes, randomised layouts and options, rich schemas split over 1-3 files with extensions, 1-6 operation files with imports; also after re-runs and crash-re-runs in the c17 class) is decoded with an independent VLQ reader and judged segment by segment against the generated text and the GraphQL inputs on the simulated file system",
             assumptions: vec!["independent VLQ decoder, lexer and header scanner (indep.rs)", "columns are UTF-16 units; the workload keeps non-ASCII to the BMP"],
